@@ -403,6 +403,13 @@ func (f *wireFlow) tally(rec *vrec) {
 	rec.maxCount("wire_max_datagram_len", int64(f.maxLen))
 }
 
+// kindOfLast is the decoder's classification of the datagram observed last.
+func (f *wireFlow) kindOfLast() string {
+	f.mu.Lock()
+	defer f.mu.Unlock()
+	return f.lastKind
+}
+
 func (f *wireFlow) longestRun() int {
 	f.mu.Lock()
 	defer f.mu.Unlock()
